@@ -48,6 +48,13 @@ def c14_scenarios(tier, seed):
             prop2 = {"body": [op("ctx", text="main-first") if i % 2 else op("helper"), op("go", n=n, val=point, body=body), draw(g("Bool"), "b")]}
             out.append(scenario("c14-gated2-%s-%s-%d" % (point, ms, i), prop2, dict(base, seed=rng.randrange(1, 1 << 64)),
                                 tag={"gate": point, "methods": ms, "goroutines": n}))
+    # the test case before skipped from its last-run cleanup function: the goroutines of this one still get one and the same live context
+    for i in range(3 if tier == "quick" else 20):
+        n = rng.choice([2, 3, 4])
+        prop = {"keyed": True, "cases": {"1": [op("cleanup", body=[op("skip")]), draw(g("Bool"), "b")], "3": [op("cleanup", body=[op("skip")]), draw(g("Bool"), "b")]},
+                "default": [op("go", n=n, val="ctx.miss" if i % 2 else "", body=[op("ctx", text="g"), op("helper")]), op("ctx", text="main"), draw(g("Bool"), "b")]}
+        out.append(scenario("c14-after-skipping-cleanup-%d" % i, prop, dict(base, seed=rng.randrange(1, 1 << 64), checks=5),
+                            tag={"methods": "ctx after a skipping cleanup", "goroutines": n}))
     # goroutines that are still registering cleanups while the engine already runs the test case's cleanups
     for i in range(reps):
         prop = {"body": [op("cleanup", body=[op("join")]), op("goasync", n=rng.choice([4, 8]), ms=rng.choice([50, 150]), body=[op("cleanup", body=[])]),
